@@ -57,6 +57,7 @@ def self_type(b):
 
 
 def mutator_methods(prog):
+    """inherent `&mut self` methods of the value types: the public mutators of the model"""
     out = []
     for n, b in sorted(prog.bodies.items()):
         if b['kind'] != 'AssocFn' or not b.get('impl') or b['impl']['trait'] or b['impl'].get('derived'):
@@ -65,6 +66,51 @@ def mutator_methods(prog):
         if is_mut and ty in TYPES and n.startswith(TYPES[ty] + '::'):
             out.append((n, ty))
     return out
+
+
+def other_writers(prog):
+    """every other non-derived function of the two crates that receives `&mut` access to one of the value types: trait-impl methods
+    (Extend, DerefMut, AddAssign ...), free functions, methods of other types.  -> [(fn, type, parameter index)]"""
+    inherent = set(n for n, _ in mutator_methods(prog))
+    out = []
+    for n, b in sorted(prog.bodies.items()):
+        s = b.get('sig')
+        if not s or b['kind'] not in ('Fn', 'AssocFn') or n in inherent or (b.get('impl') and b['impl'].get('derived')):
+            continue
+        if not n.startswith(('unic_langid_impl::', 'unic_locale_impl::')):
+            continue
+        for i, t in enumerate(s['inputs']):
+            m = re.match(r'^&mut (.*)$', t)
+            if m:
+                ty = terms.norm_ty(m.group(1)).split('::')[-1]
+                if ty in TYPES:
+                    out.append((n, ty, i + 1))
+    return out
+
+
+def mutable_escapes(prog, rep):
+    """who-may-write: no function hands out mutable access (`&mut`, IterMut, Drain, Entry ...) to the inside of a value type with an order /
+    uniqueness invariant - the invariants could then be broken from outside the module"""
+    allinv = invariant_fields(prog.facts)
+    owners = set(t for t, (full, inv) in allinv.items() if inv)
+    n = 0
+    for fn, b in sorted(prog.bodies.items()):
+        s = b.get('sig')
+        if not s or b['kind'] not in ('Fn', 'AssocFn') or (b.get('impl') and b['impl'].get('derived')) or not fn.startswith(('unic_langid_impl::', 'unic_locale_impl::')):
+            continue
+        o = s['output']
+        if not re.search(r'&mut |&\'[a-z_0-9]+ mut |IterMut|Drain<|Entry<|ValuesMut|DerefMut', o):
+            continue
+        ins = [terms.norm_ty(re.sub(r'^&mut ', '', t)).split('::')[-1] for t in s['inputs'] if t.startswith('&mut')]
+        hit = [t for t in ins if t in owners or t in ('Locale', 'ExtensionsMap')]
+        if not hit:
+            continue
+        n += 1
+        # mutable access to a field without invariant (tlang, the maps) is fine: only the invariant-carrying element types matter
+        risky = any(x in o for x in ('Vec<', 'TinyAsciiStr', 'Variant', '[', 'Box<')) or any(t in o for t in owners)
+        rep.ob('escape:%s' % fn, 'TS-ESCAPE', fn, b['span'], '%s does not hand out mutable access to an ordered collection' % fn.split('::', 1)[-1], not risky,
+               detail='returns %s from &mut %s: callers could reorder / duplicate elements behind the invariant' % (o, hit[0]))
+    return n
 
 
 def constructors(prog):
@@ -154,14 +200,14 @@ def check_atomicity(prog, e, segs, fn, rep, keybase):
     return nerr
 
 
-def check_invariants_method(prog, e, segs, fn, ty, inv, rep, keybase):
-    """typestate of every invariant field at every exit of a &mut self method (assuming it on entry)"""
+def check_invariants_method(prog, e, segs, fn, ty, inv, rep, keybase, recv=1):
+    """typestate of every invariant field at every exit of a &mut self method (assuming it on entry); recv: index of the `&mut` parameter"""
     b = prog.bodies[fn]
     bad = []
     n = 0
     has_loops = any(s.kind == 'loop' for s in segs)
     for (fi, fname, req, nonempty, role) in inv:
-        place = ('F', ('P', ('param', 1)), fi)
+        place = ('F', ('P', ('param', recv)), fi)
         for s in segs:
             if s.kind != 'return':
                 continue
